@@ -23,6 +23,24 @@ def app(prop, theorems, explanation, assumptions, facts=None):
 
 
 PROPS = {
+    "C20": {
+        "module": "Shutter.Properties.C20",
+        "theorems": ["C20_all_once", "C20_any_order", "C20_only_pending"],
+        "driver": {"pkg": "./cmd/epkcheck"},
+        "trusted_base": [KERNEL, CORR,
+                         "pgfake + kdb: the PostgreSQL wire fake and my Go reading of GetAndDeleteEonPublicKeys (delete all pending rows, "
+                         "return those that join with eons and tendermint_batch_config, unordered)",
+                         "hook keyper.VerifNewEonPubKeyHandler (build tag verif) constructs the unexported handler from its parts"],
+        "explanation": "Theorems (Lean): for any list of pending keys of keyper sets the keyper belongs to, in any order, in both publication "
+                       "modes, if the mechanism accepts, the tick hands over every key exactly once with activation block, keyper-set index "
+                       "and eon number, and returns no error; permuting the rows permutes the hand-overs; nothing is handed that was not "
+                       "pending. The real handler runs over an in-process PostgreSQL fake through multi-tick scenarios with 0..4 pending "
+                       "keys per tick and is compared with the model; the property is also evaluated directly on what was broadcast / "
+                       "passed to the callback.",
+        "assumptions": ["a pending key whose eon or keyper set is not stored yet is deleted without being handed over (the inner joins of the "
+                        "query); the keyper stores eon and batch config before the DKG result, so this does not arise on the code paths that "
+                        "insert pending keys"],
+    },
     "C01": {
         "module": "Shutter.Properties.C01",
         "theorems": ["C01_exact", "C01_correct", "C01_order_independent", "C01_no_panic"],
